@@ -35,6 +35,8 @@ theorem allowed_ok {K : Kind} {ops : List Op} (h : Allowed K ops) : ∀ op ∈ o
   | meter x => exact this
   | shards _ => trivial
   | sync _ _ _ _ => trivial
+  | event => trivial
+  | tick _ _ => trivial
   | hb _ _ _ => trivial
   | reconcileCount => trivial
   | answer _ _ => trivial
@@ -349,15 +351,17 @@ theorem c09_not_ready_after_timeout (now t0 : Int) (rest : List (Bool × Int))
 theorem c09_sync_same_leader_keeps_status (st : State) (fail : Bool) (n : Nat) (leader : Option Nat) (now : Int)
     (h : fail = true ∨ leader = none ∨ leader = some st.leader) :
     ∃ st', step st (.sync fail n leader now) = .ok st' ∧ st'.hb = st.hb ∧ st'.leader = st.leader ∧
-      st'.cache = st.cache ∧ (fail = true → st' = st) ∧ (fail = false → st'.shardCount = n) := by
+      st'.cache = st.cache ∧ st'.meter = st.meter ∧ (fail = true → st'.shardCount = st.shardCount) ∧
+      (fail = false → st'.shardCount = n) := by
   cases fail with
-  | true => exact ⟨st, rfl, rfl, rfl, rfl, fun _ => rfl, fun h => (by cases h)⟩
+  | true => exact ⟨{ st with clock := now }, rfl, rfl, rfl, rfl, rfl, fun _ => rfl, fun h => (by cases h)⟩
   | false =>
     rcases h with h | h | h
     · cases h
-    · subst h; exact ⟨_, rfl, rfl, rfl, rfl, fun h => (by cases h), fun _ => rfl⟩
+    · subst h; exact ⟨_, rfl, rfl, rfl, rfl, rfl, fun h => (by cases h), fun _ => rfl⟩
     · subst h
-      refine ⟨{ st with shardCount := n }, by simp [step], rfl, rfl, rfl, fun h => (by cases h), fun _ => rfl⟩
+      refine ⟨{ st with shardCount := n, clock := now }, by simp [step], rfl, rfl, rfl, rfl, fun h => (by cases h),
+        fun _ => rfl⟩
 
 /-- … so the judge's heartbeat history — and every theorem above about it — ignores such syncs, while a CHANGED
     leader is a success at that time (`clientSets.sync` calls `setLeaderStatus(shard, leader, true)` only then) -/
@@ -408,6 +412,128 @@ theorem failRun_all_failed : ∀ (h : List (Bool × Int)) (t0 : Int), failRunSta
         cases ys1 with
         | true => rfl
         | false => rw [failRunStart_false] at hr; cases hr
+
+/-! ## 6. the request side: the instance keeps asking, so recovery does happen -/
+
+/-- a count wrapper (the only ones with a counter) -/
+def IsCount : GFC → Prop
+  | .empty _ => False
+  | _ => True
+
+/-- **the instance keeps asking**: more than 2 s (unix seconds) after the counter's last sync a max-in-flight counter
+    always sends a request, and a token-bucket counter does unless an event is pending — degraded or not, idle or
+    not, reserve full or not (the zero-token resync) -/
+theorem c09_request_when_due (g : GFC) (hg : IsCount g) (cnt : Counter) (mt : Meter) (now : Int)
+    (hdue : unixS now - cnt.lastSync > 2) (hev : (∃ w, g = .miw w) ∨ cnt.event = false) :
+    ∃ hits, requestOf g cnt mt now = some hits := by
+  cases hreq : requestOf g cnt mt now with
+  | some hits => exact ⟨hits, rfl⟩
+  | none =>
+    rcases requestOf_due (Int.le_refl _) hdue hreq with ⟨l, rfl⟩ | ⟨⟨w, rfl⟩, he⟩
+    · exact hg.elim
+    · rcases hev with ⟨w', h⟩ | h
+      · cases h
+      · rw [h] at he; cases he
+
+theorem recover_unavail (w : TBW) : w.recover.unavail = false := by
+  unfold TBW.recover
+  cases h : w.unavail <;> simp [h]
+
+/-- what an accepted answer does to a count wrapper: it is available afterwards — unless it is a max-in-flight wrapper
+    and the answer is stale (request time not after the last applied one), which leaves it as it was -/
+theorem setLimit_accept (g : GFC) (hg : IsCount g) (loc : Schema) (mt : Meter) (hits now : Int) (a : TickAnswer)
+    (ha : a.accept = true) (he : a.err = .none) :
+    ∃ g' b, gfcSetLimit (g.addAcquiring hits) loc mt (tickReply a hits now) = .ok (g', b) ∧ IsCount g' ∧
+      (g'.unavail = false ∨ (g'.unavail = g.unavail ∧ ∃ w, g = .miw w ∧ now > 0 ∧ now ≤ w.lastAcquireTime)) := by
+  cases g with
+  | empty l => exact hg.elim
+  | miw w =>
+    by_cases hst : now > 0 ∧ now ≤ w.lastAcquireTime
+    · refine ⟨.miw w, false, ?_, trivial, Or.inr ⟨rfl, w, rfl, hst.1, hst.2⟩⟩
+      simp [GFC.addAcquiring, gfcSetLimit, MIW.setLimit, tickReply, hst.1, hst.2, bind, Except.bind, pure, Except.pure]
+    · cases hres : w.setLimit loc mt.maxInflight (tickReply a hits now) with
+      | error e => simp [MIW.setLimit, tickReply, hst, he, ha] at hres
+      | ok w' =>
+        refine ⟨.miw w', false, ?_, trivial, Or.inl ?_⟩
+        · simp [GFC.addAcquiring, gfcSetLimit, hres, bind, Except.bind, pure, Except.pure]
+        · simp only [MIW.setLimit, tickReply, if_neg hst, he, ha, if_true, Except.ok.injEq] at hres
+          rw [← hres]; rfl
+  | tbw w =>
+    cases hres : ({ w with tokenInflight := i32add w.tokenInflight hits } : TBW).setLimit loc mt (tickReply a hits now) with
+    | error e => simp [TBW.setLimit, tickReply, he, ha] at hres
+    | ok r =>
+      obtain ⟨w', b⟩ := r
+      refine ⟨.tbw w', b, ?_, trivial, Or.inl ?_⟩
+      · simp [GFC.addAcquiring, gfcSetLimit, hres, bind, Except.bind, pure, Except.pure]
+      · simp only [TBW.setLimit, tickReply, he, ha, if_true, Except.ok.injEq, Prod.mk.injEq] at hres
+        rw [← hres.1]
+        simp only [GFC.unavail, TBW.addTokens, recover_unavail]
+
+
+/-- one round answered with accept, on any state that holds a count wrapper: afterwards the wrapper is available if it
+    was, or if a request was sent and the answer is not stale -/
+theorem tick_accept (st : State) (c : Cache) (rm : Remote) (g : GFC) (hc : st.cache = some c)
+    (hr : c.remote = some rm) (hf : rm.fc = some g) (hg : IsCount g) (now : Int) (a : TickAnswer)
+    (ha : a.accept = true) (he : a.err = .none) :
+    ∃ st' c' rm' g', step st (.tick now (some a)) = .ok st' ∧ st'.cache = some c' ∧ c'.remote = some rm' ∧
+      rm'.fc = some g' ∧ IsCount g' ∧ st'.meter = st.meter ∧
+      ((requestOf g c.cnt st.meter now = none ∧ g' = g ∧ c'.cnt = { c.cnt with event := false }) ∨
+       ((∃ hits, requestOf g c.cnt st.meter now = some hits) ∧
+        (g'.unavail = false ∨ (g'.unavail = g.unavail ∧ ∃ w, g = .miw w ∧ now > 0 ∧ now ≤ w.lastAcquireTime)))) := by
+  cases hreq : requestOf g c.cnt st.meter now with
+  | none =>
+    exact ⟨tickQuiet st c now, _, rm, g, by simp [step, hc, hr, hf, hreq], rfl, hr, hf, hg, rfl,
+      Or.inl ⟨rfl, rfl, rfl⟩⟩
+  | some hits =>
+    obtain ⟨g', b, h1, h2, h3⟩ := setLimit_accept g hg c.loc.config st.meter hits now a ha he
+    exact ⟨tickSent st c rm g' { event := false, lastSync := unixS now } now hits, _, _, g',
+      by simp [step, hc, hr, hf, hreq, h1], rfl, rfl, rfl, h2, rfl, Or.inr ⟨⟨hits, rfl⟩, h3⟩⟩
+
+/-- **recovery, as liveness by steps.** From ANY state that holds a count wrapper — degraded, idle, reserve full —:
+    if two rounds of the counter manager come more than 2 s (unix seconds) after the counter's last sync and every
+    request the instance sends is answered with accept (the first answer not being stale for a max-in-flight wrapper,
+    i.e. time moves forward), then after those two rounds the limiter server is considered available again — the
+    instance DID send a request (the zero-token resync), at the latest in the second round (a token-bucket counter
+    with a pending event and nothing to ask for consumes the event in the first). With `c09_judge` (clause
+    `c09.recover-not-applied`) the capacity then is the server-granted one. The worker runs a round at least every
+    `MaxIdealDuration` (900 ms), so this is within 3 s + 2 rounds of the server's recovery. -/
+theorem c09_recovery_liveness (st : State) (c : Cache) (rm : Remote) (g : GFC) (hc : st.cache = some c)
+    (hr : c.remote = some rm) (hf : rm.fc = some g) (hg : IsCount g) (t1 t2 : Int) (a1 a2 : TickAnswer)
+    (h1 : a1.accept = true ∧ a1.err = .none) (h2 : a2.accept = true ∧ a2.err = .none)
+    (hd1 : unixS t1 - c.cnt.lastSync > 2) (hd2 : unixS t2 - c.cnt.lastSync > 2)
+    (hfresh : ∀ w, g = .miw w → ¬ (t1 > 0 ∧ t1 ≤ w.lastAcquireTime)) :
+    ∃ st' c' rm' g', exec st [.tick t1 (some a1), .tick t2 (some a2)] = some st' ∧ st'.cache = some c' ∧
+      c'.remote = some rm' ∧ rm'.fc = some g' ∧ IsCount g' ∧ g'.unavail = false := by
+  obtain ⟨s1, c1, r1, g1, e1, e2, e3, e4, e5, e6, e7⟩ := tick_accept st c rm g hc hr hf hg t1 a1 h1.1 h1.2
+  -- after the first round: recovered, or (token bucket with a pending event) unchanged with the event consumed
+  have second : (g1.unavail = false) ∨ (g1 = g ∧ c1.cnt = { c.cnt with event := false } ∧ ∃ w, g = .tbw w) := by
+    rcases e7 with ⟨hn, hgg, hcnt⟩ | ⟨_, hav | ⟨_, w, hw, hst⟩⟩
+    · right
+      refine ⟨hgg, hcnt, ?_⟩
+      cases g with
+      | empty l => exact hg.elim
+      | miw w =>
+        obtain ⟨hits, hh⟩ := c09_request_when_due (.miw w) hg c.cnt st.meter t1 hd1 (Or.inl ⟨w, rfl⟩)
+        rw [hn] at hh; cases hh
+      | tbw w => exact ⟨w, rfl⟩
+    · exact Or.inl hav
+    · exact (hfresh w hw hst).elim
+  obtain ⟨s2, c2, r2, g2, f1, f2, f3, f4, f5, f6, f7⟩ := tick_accept s1 c1 r1 g1 e2 e3 e4 e5 t2 a2 h2.1 h2.2
+  refine ⟨s2, c2, r2, g2, by simp [exec, e1, f1], f2, f3, f4, f5, ?_⟩
+  rcases second with hav | ⟨hgg, hcnt, w, hw⟩
+  · -- available before the second round: it stays so
+    rcases f7 with ⟨_, hgg2, _⟩ | ⟨_, h | ⟨h, _⟩⟩
+    · rw [hgg2]; exact hav
+    · exact h
+    · rw [h]; exact hav
+  · -- the second round is due, no event pending: the zero-token resync is sent and answered
+    subst hgg hw
+    have hdue2 : unixS t2 - c1.cnt.lastSync > 2 := by rw [hcnt]; exact hd2
+    obtain ⟨hits, hh⟩ := c09_request_when_due (.tbw w) trivial c1.cnt s1.meter t2 hdue2 (Or.inr (by rw [hcnt]))
+    rcases f7 with ⟨hn, _, _⟩ | ⟨_, h | ⟨_, w', hw', _⟩⟩
+    · rw [hn] at hh; cases hh
+    · exact h
+    · cases hw'
 
 /-! ## non-vacuity: the hypotheses are satisfiable by concrete, non-trivial runs; the judge is not trivially true -/
 
@@ -495,6 +621,28 @@ example : (run exCfg exOpsSync).1.map (fun o => (o.choice, o.ready, o.leader)) =
 example : (judgeAll exCfg exOpsSync ((run exCfg exOpsSync).1.mapIdx fun i o =>
       if i = 7 then { o with ready := true, choice := .remote, lim := o.rlim } else o))[7]?
     = some ["c09.ready-hysteresis", "c09.fallback-choice"] := by decide
+
+/-- the request side, token bucket 10/20 of global 100/200 under the count strategy: the server fills the reserve (5),
+    the instance is idle, the reset check times out (degraded: 10/10), the server is back: the round 1 s later sends
+    nothing (not due), the round 3 s after the last answer sends the zero-token resync and recovery follows -/
+def exTBCount : Schema := { strategy := .count, tb := some ⟨10, 20⟩, gtb := some ⟨100, 200⟩ }
+def exOpsTick : List Op :=
+  [ .schema exTBCount, .sync false 1 (some 1) 0, .reconcileCount,
+    .tick 3000000000 (some { accept := true, limit := 1000 }),
+    .setLimit { err := .other },
+    .tick 4000000000 (some { accept := true, limit := 1000 }),
+    .tick 6000000000 (some { accept := true, limit := 1000 }),
+    .tick 6900000000 (some { accept := true, limit := 1000 }) ]
+
+example : (run exCfg exOpsTick).1.map (fun o => (o.lim, o.unavail, o.tokens, o.req)) =
+    [ (some (.tb 10 20), false, 0, none), (some (.tb 10 20), false, 0, none), (some (.tb 100 200), false, 0, none),
+      (some (.tb 100 200), false, 5, some 1), (some (.tb 10 10), true, 5, some 1), (some (.tb 10 10), true, 5, none),
+      (some (.tb 100 200), false, 10, some 0), (some (.tb 100 200), false, 10, none) ] := by decide
+
+/-- the judge rejects an instance that stays silent (and degraded) when the resync is due -/
+example : (judgeAll exCfg exOpsTick ((run exCfg exOpsTick).1.mapIdx fun i o =>
+      if i = 6 then { o with req := none, unavail := true, lim := some (.tb 10 10), rlim := some (.tb 10 10) } else o))[6]?
+    = some ["c09.no-request-when-due"] := by decide
 
 /-- the heartbeat hypotheses of the hysteresis theorems are satisfiable (whatever the regenerated time-out is): up on a
     success, still up after exactly the time-out of consecutive failure, down one nanosecond later -/
